@@ -1,13 +1,13 @@
 """C05 — quantise: grid, well-formed notes, survival.  Deciding oracle: the post-contract on the real
 AbsoluteSequence.quantise (monitors.py), evaluated on every call this workload and the in-situ run make."""
 from vmon import gen
-from vmon.checks.common import obs, fail, both_views
+from vmon.checks.common import obs, fail, both_views, random_prefix, apply_prefix
 
 PROP = "C05"
 MONITORS = ["quantise"]
 INSITU = {"k": "quantise or composition or tokenisation or scale or example"}
 RULE = ("seeded well-formed sequences tuned to collapse (lengths 1-8 around grid points, 2-12 notes on 2-4 pitches, "
-        "1-3 channels sharing pitches, control changes between them) x step lists; the contract on the real "
+        "1-3 channels sharing pitches, control changes between them) x step lists, a quarter of them after a prefix history of 1-3 other public operations on the same object (quantise with the same or another grid, cutoff, pad, transpose, scale, edits while iterating, copy, reads); the contract on the real "
         "quantise decides grid/displacement/pairing/non-notes/image/survival. A case is non-trivial when quantise "
         "moved some event or collapsed a note; distinct by content hash of the materialised case.")
 PLAN = {"quick": {"cases": 6000, "jobs": 4, "timeout": 600},
@@ -39,11 +39,13 @@ def make_case(rng, i, tier):
     spec = {"notes": notes, "extra": extra, "start": rng.choice(["abs", "abs", "rel", "both"])}
     if rng.random() < 0.3:
         spec["pad"] = rng.randrange(0, tmax + 60)
-    return {"seq": spec, "steps": steps, "style": style}
+    prefix = random_prefix(rng, n=(1, 3), same_steps=steps) if i % 4 == 3 else []
+    return {"seq": spec, "steps": steps, "style": style, "prefix": prefix}
 
 
 def run(case, ctx):
     s = gen.build_seq(case["seq"])
+    s = apply_prefix(s, case.get("prefix", []))
     before = obs(s)
     if case["steps"] is None:
         s.quantise()
@@ -63,7 +65,7 @@ def run(case, ctx):
     moved = before["events"] != after["events"]
     return {"nontrivial": moved or collapsed > 0, "fails": fails,
             "shape": (len(set(n[0] for n in spec["notes"])), "shared" if shared else "-", min(collapsed, 3),
-                      str(case["steps"]), case["style"]),
+                      str(case["steps"]), case["style"], "prefix" if case.get("prefix") else "fresh"),
             "observed": {"notes_before": len(before["notes"]), "notes_after": len(after["notes"]), "moved": moved}}
 
 
